@@ -1,4 +1,6 @@
 import OvniModel.Emu.Sort
+import OvniModel.Generated.Nosv
+import OvniModel.Generated.Nanos6
 
 /-!
 # Model of the breakdown patch-bay (`src/emu/nosv/breakdown.c`,
@@ -26,9 +28,9 @@ structure Consts where
   deriving Repr
 
 /-- `nosv_priv.h` -/
-def nosv : Consts := ⟨11, 2, 100⟩
+def nosv : Consts := ⟨Ovni.Generated.Nosv.stTaskBody, Ovni.Generated.Nosv.stUnknownSs, Ovni.Generated.Nosv.stProgressing⟩
 /-- `nanos6_priv.h` -/
-def nanos6 : Consts := ⟨1, 2, 100⟩
+def nanos6 : Consts := ⟨Ovni.Generated.Nanos6.stTaskBody, Ovni.Generated.Nanos6.stUnknownSs, Ovni.Generated.Nanos6.stProgressing⟩
 
 /-- `struct mux` as observable: which input callback is enabled
     (`mux->selected` / `input->cb->enabled`; `none` = no input enabled, the
